@@ -11,14 +11,14 @@ pick order.  M-TASK (Model/Task.lean) is the per-task scheduling protocol: it sh
 Schedule independence of the handler invocations is proved (`handler_invocations_are_schedule_independent`): every
 event gets, as ghost data, its *path* in the unfolding tree of the program (root = a model's init or a driver
 request, then operation index and connection index at every hop); a completed run has handled exactly the nodes of
-that tree, each once, whatever the interleaving.  PARTIAL: the same statement for *sink outputs* is not proved (the
-sink log of the model carries no event ids); it is checked by the correspondence engine, which compares sink
-contents between the single-threaded executor, the multi-threaded executor with 1..8 workers and the model's own
-schedule.  The executors' idle detection (pool
+that tree, each once, whatever the interleaving; the same holds for the events written to sinks
+(`sink_outputs_are_schedule_independent`).  The correspondence engine compares both multisets between the
+single-threaded executor, the multi-threaded executor with 1..8 workers and the model's own schedule.
+PARTIAL: the executors' idle detection (pool
 manager, parking) is not modelled either: `returns_only_at_quiescence` below is the *definition* of a step in M-NET,
 tied to the code by that same comparison (an early return shows up as a missing invocation or as a wrong report).
 -/
-import NexoVerif.Lemmas.NetConfluence
+import NexoVerif.Lemmas.NetSinks
 import NexoVerif.Lemmas.TaskThm
 import NexoVerif.Model.NetRun
 
@@ -128,6 +128,12 @@ blocks a transition: `reach_xreach`.) -/
 theorem handler_invocations_are_schedule_independent (P : Prog) {x1 x2 : St × G} (h1 : XReach P x1) (h2 : XReach P x2)
     (c1 : Completed P x1.1) (c2 : Completed P x2.1) (hcap : ∀ d, 1 ≤ P.cap d) (hroots : x1.2.roots = x2.2.roots) :
     x1.1.handledP.Perm x2.1.handledP := completed_runs_agree P h1 h2 c1 c2 hcap hroots
+
+/-- **sink_outputs_are_schedule_independent** — under the same hypotheses the events written to event sinks,
+`(sink, payload)`, of the one execution are a permutation of those of the other. -/
+theorem sink_outputs_are_schedule_independent (P : Prog) {x1 x2 : St × G} (h1 : XReach P x1) (h2 : XReach P x2)
+    (c1 : Completed P x1.1) (c2 : Completed P x2.1) (hcap : ∀ d, 1 ≤ P.cap d) (hroots : x1.2.roots = x2.2.roots) :
+    x1.1.sinks.Perm x2.1.sinks := completed_runs_agree_on_sinks P h1 h2 c1 c2 hcap hroots
 
 /-- **completed_run_is_the_unfolding_tree** — the characterisation behind it: in a completed run the handled events,
 tagged with their paths, are exactly the nodes of the unfolding tree of the program from the driver's requests —
